@@ -136,7 +136,8 @@ struct Sys {
 /// Runs `$body` with `$cl` bound to the typed client of the flavour's contract (the three clients
 /// share the `Votes` trait interface and `balance`).
 macro_rules! with_client {
-    ($sys:expr, $cl:ident => $body:expr) => {
+    ($sys:expr, $cl:ident => $body:expr) => {{
+        fresh(&$sys.e);
         match $sys.fl {
             Fl::Example => {
                 let $cl = fvotes::ExampleContractClient::new(&$sys.e, &$sys.c);
@@ -151,7 +152,13 @@ macro_rules! with_client {
                 $body
             }
         }
-    };
+    }};
+}
+
+/// A finite budget per call (4x the network's CPU limit): a loop that never terminates inside the
+/// code under test ends as a refused call (data for the monitors) instead of hanging the harness.
+fn fresh(e: &Env) {
+    e.cost_estimate().budget().reset_limits(400_000_000, 400_000_000);
 }
 
 fn num<T, E1, E2>(r: Result<Result<T, E1>, E2>) -> Option<T> {
@@ -204,6 +211,7 @@ impl Sys {
         let mut votes = JMap::new();
         for a in &self.accts {
             let ad = self.names.get(a);
+            fresh(e);
             let b: i128 = match self.fl {
                 Fl::Example => num(fvotes::ExampleContractClient::new(e, &self.c).try_balance(&ad)).unwrap_or(-1),
                 Fl::FtBurn => num(ftburn::FtVotesBurnClient::new(e, &self.c).try_balance(&ad)).unwrap_or(-1),
@@ -212,6 +220,7 @@ impl Sys {
             bal.insert(a.clone(), jint(b));
             // the voting units have no contract entry point (the `Votes` trait does not expose them):
             // read through the library's public read-only function in the contract's frame
+            fresh(e);
             let u = e.as_contract(&self.c, || stellar_governance::votes::get_voting_units(e, &ad));
             units.insert(a.clone(), jint(u as i128));
             with_client!(self, cl => {
@@ -223,6 +232,7 @@ impl Sys {
                 deleg.insert(a.clone(), json!(d));
             });
         }
+        fresh(e);
         let supply: i128 = match self.fl {
             Fl::Example => num(fvotes::ExampleContractClient::new(e, &self.c).try_total_supply()).unwrap_or(-1),
             Fl::FtBurn => num(ftburn::FtVotesBurnClient::new(e, &self.c).try_total_supply()).unwrap_or(-1),
@@ -279,6 +289,7 @@ impl Sys {
         let addr = |k: &str| -> Address { self.names.get(s(op, k)) };
         let c = self.c.clone();
         let mut tok: i64 = -1;
+        fresh(e);
         let (res, code): (&'static str, i64) = match (kind, self.fl) {
             // ---- mint ---------------------------------------------------------------------------
             ("mint", Fl::Example) => {
